@@ -73,3 +73,7 @@ check("C20", "exploration",
       "Held on every executed schedule: 40 (quick) / 1008 + 20 helgrind (thorough) process runs of 2-16 worker threads sharing one sslKeys_t (identities, CA list, ticket keys, ECDHE cache), the global session cache, the PRNG and the CRL cache, with a ticket-key rotator and a CRL churn thread and injected yields between API calls; ThreadSanitizer (and helgrind) reports, crashes and watchdog-detected deadlocks are violations, and the recorded per-operation history must have a sequential explanation per credential (issuer started earlier, same master secret, refusals justified by a deletion/invalidations/eviction that overlapped).",
       "TSan judges only code that ran concurrently in some run; one ssl_t is never shared between threads; real clock and /dev/urandom (schedules are not replayable bit-for-bit, a replay repeats the run 12 times); eviction is accepted as a reason for refusal only when enough cache users overlapped.",
       "ThreadSanitizer / helgrind race detection plus offline sequential-explanation checker over recorded operation histories, randomized schedules with injected yields", "3/C20")
+check("C19", "fault_enumeration",
+      "Single-fault enumeration per scenario (load keys and CAs, full / resumed / client-auth handshakes per version incl. DTLS and TLS 1.3, data exchange, teardown): quick fails the first occurrence of every allocation site (return address) plus seeded ordinals and seeded multi-fault sequences (~3.2k faults), thorough fails every allocation ordinal of every scenario (~150k faults). Each fault runs in a fork()ed child of the ASan+UBSan build with LeakSanitizer at exit; oracle: the API call reports an error or the connection ends with an alert, no sanitizer report, nothing leaked after the application deleted its objects, and must-fail scenarios (bad peer credentials) never complete.",
+      "Allocation failures are injected only while a library API call is on the stack (malloc/calloc/realloc via link-time --wrap); allocations inside libc (stdio) are not failed; leak keys name the allocation site, so one key may cover several error paths.",
+      "allocation-failure injection (link-time malloc wrappers) with sanitizer + leak oracles over fork-cloned scenarios", "3/C19")
